@@ -387,8 +387,12 @@ def C13_5(ctx, facts):
 
 
 def C13_6(ctx, facts):
-    h2 = facts.call_sites_of("client::conn::protocol::auto::HttpConnectionBuilder::handshake_h2")
-    h1 = facts.call_sites_of("client::conn::protocol::auto::HttpConnectionBuilder::handshake_h1")
+    # evaluated on the unit of the handshake body (a helper deciding the protocol is spliced in, its literal results threaded)
+    homes = {c.fn.key for c in facts.call_sites_of("client::conn::protocol::auto::HttpConnectionBuilder::handshake_h2",
+                                                   "client::conn::protocol::auto::HttpConnectionBuilder::handshake_h1")}
+    units = [facts.unit(facts.fns[k], expand=True) for k in sorted(homes)]
+    h2 = [c for u in units for c in u.calls("client::conn::protocol::auto::HttpConnectionBuilder::handshake_h2")]
+    h1 = [c for u in units for c in u.calls("client::conn::protocol::auto::HttpConnectionBuilder::handshake_h1")]
     ctx.floor("handshake|h2-sites", len(h2), 1, "handshake_h2 call sites")
     ctx.floor("handshake|h1-sites", len(h1), 1, "handshake_h1 call sites")
     tls = ctx.cur_config in ("tls", "mocks", "aws")
